@@ -126,7 +126,9 @@ class FileUnderTest:
             # hierarchy refresh: the parent drops its first event; the
             # summaries of the refreshed child follow its new data
             out["refresh"] = None
-            if len(ds) >= 2:
+            # (only on files whose feature has as many events as the
+            # dataset: a replaced feature of a condensed file has not)
+            if len(ds) >= 2 and len(ds[self.feat]) == len(ds):
                 ds.filter.manual[0] = False
                 ch.rejuvenate()
                 cr = ch[self.feat]
@@ -165,6 +167,8 @@ class FileUnderTest:
         m = {k: dict(v) for k, v in gen.META.items() if k != "fluorescence"}
         with dclab.new_dataset(self.path) as ds:
             n = len(ds)
+            if len(ds[self.feat]) != n:
+                return []     # (inconsistent file: see observe())
         with RTDCWriter(ref, mode="reset") as hw:
             hw.store_metadata(m)
             hw.store_feature("area_um", np.arange(n, dtype=float) + 1)
